@@ -1,4 +1,4 @@
-HOOK_COMMITS = []
+HOOK_COMMITS = ["33cf539 verif: scheduling hooks in nclient4/nclient6", "d8948ba verif: call the scheduling hooks in nclient6"]
 COMMON_NOTE = ("Trusted base: Coq 8.16.1 kernel (vm_compute used, native_compute not used); no axioms (Print Assumptions: closed under the global context); "
                "extraction with ExtrOcamlBasic only + OCaml 4.13.1 + driver/main.ml; the Go harness and ./check. The Go code is modelled by hand, not verified: "
                "the theorems are about the Gallina model, which is tied to /repo's current tree on every run by the differential correspondence check "
@@ -119,5 +119,27 @@ TEXT = {
                 "65 507 octets and by hill climbing.",
         "note": COMMON_NOTE + "Partial: allocator behaviour cannot be proved in the model; only the name decoder's size/work bounds are theorems, message-level bounds are measurements with explicit constants.",
         "technique": "Coq proof (size and step-count bounds of the name decoder) + allocation/deep-size measurement harness with adversarial families and hill climbing",
+    },
+    "C12": {
+        "text": "Theorem C12_schedule: for EVERY delivery stream in which nothing is accepted (silence or any stream of rejected same-id datagrams) exactly n transmissions at T(2^k - 1) and the "
+                "no-response error at T(2^n - 1), for all n, T; unbounded tries follow the schedule prefix-wise; an accepted response ends the call with no further transmission; the pinned "
+                "code's re-armed timer is kept as a refutation ([0; 4050], 4150 for T = 50, n = 2). Both real clients are run under virtual time on the grid and compared instant-for-instant.",
+        "note": COMMON_NOTE + "testing/synctest's virtual clock is trusted.",
+        "technique": "Coq proof (induction over tries and delivery streams) + virtual-time differential harness on both clients",
+    },
+    "C11": {
+        "text": "Theorems on the timed-call model: return no later than T(2^n - 1) for EVERY delivery stream and cancel/close instant; return at the cancellation instant with the context's error, "
+                "at the close instant with the no-response error, at the arrival of the first acceptable response; after a call's cancel its id is not pending (from the routing invariant, for "
+                "all interleavings); refutation for the pinned timer. Real clients: synctest scenarios with exact instants; bubble exit shows no goroutine is left.",
+        "note": COMMON_NOTE + "Goroutine-leak freedom beyond the explored schedules is a statement about the model's steps, not a runtime guarantee.",
+        "technique": "Coq proof (timed-call model + routing invariant) + virtual-time harness with cancellation/Close at arbitrary instants",
+    },
+    "C10": {
+        "text": "A small-step machine of send/cancel/receiveLoop with an invariant proved for ALL event sequences (any number of callers and datagrams): received datagrams carry the call's id and "
+                "were routed while it waited, arrival order is preserved, filtered/unsolicited datagrams change nothing, a pending id is refused, a channel is closed only for a cancelling call "
+                "(the F8 invariant; refuted for the pinned cancel by vm_compute on the 5-event schedule). The macro driver compared with both real clients is proved to be a refinement of the "
+                "micro machine; the F8 schedule is forced on the real code through build-tag hooks.",
+        "note": COMMON_NOTE + "Data races are not expressible in an atomic-step model (harness under -race in the thorough tier only). verif hooks are trusted to be no-ops without the tag.",
+        "technique": "Coq proof (inductive invariant over all interleavings, refinement macro->micro) + synctest macro-step harness + hook-forced micro schedule",
     },
 }
